@@ -370,11 +370,14 @@ pub fn worker(args: &[String]) -> i32 {
 
 /// number of cases that exceeded the CPU budget so far; after a handful the remaining cases add no information
 static BUDGET_KILLS: std::sync::atomic::AtomicU64 = std::sync::atomic::AtomicU64::new(0);
+/// set once six cases have exceeded the budget: the verdict is in, every worker still running is ended and the
+/// remaining shards and phases are skipped (each would only burn another 60 CPU-seconds per shard)
+static CUT_SHORT: std::sync::atomic::AtomicBool = std::sync::atomic::AtomicBool::new(false);
 
 fn run_shard(exe: &str, build: &str, seed: u64, workload: &str, lo: u64, hi: u64, acc: &mut Acc) {
     let mut cur = lo;
     while cur < hi {
-        if BUDGET_KILLS.load(std::sync::atomic::Ordering::Relaxed) >= 6 {
+        if BUDGET_KILLS.load(std::sync::atomic::Ordering::Relaxed) >= 6 || CUT_SHORT.load(std::sync::atomic::Ordering::Relaxed) {
             acc.cov("cut-short-after-repeated-cpu-budget-violations");
             return;
         }
@@ -436,7 +439,9 @@ fn run_shard(exe: &str, build: &str, seed: u64, workload: &str, lo: u64, hi: u64
                         json!({"build": build, "workload": workload, "k": kx, "note": "all 30 entry points normally return within milliseconds of CPU time on this input; after 60 seconds of CPU time (process time, not wall clock) no result had been returned: bounded-progress reading of 'terminates normally'"}),
                     );
                     cpu_killed = Some(kx);
-                    BUDGET_KILLS.fetch_add(1, std::sync::atomic::Ordering::Relaxed);
+                    if BUDGET_KILLS.fetch_add(1, std::sync::atomic::Ordering::Relaxed) + 1 >= 6 && !CUT_SHORT.swap(true, std::sync::atomic::Ordering::Relaxed) {
+                        crate::common::kill_descendants();
+                    }
                 }
             } else if let Some(r) = line.strip_prefix("S ") {
                 started = r.trim().parse().ok();
@@ -479,6 +484,11 @@ fn run_shard(exe: &str, build: &str, seed: u64, workload: &str, lo: u64, hi: u64
         }
         let status = child.wait();
         done.store(true, std::sync::atomic::Ordering::Relaxed);
+        if CUT_SHORT.load(std::sync::atomic::Ordering::Relaxed) && cpu_killed.is_none() {
+            // ended by the cut-short above, not by anything the case did
+            acc.cov("cut-short-after-repeated-cpu-budget-violations");
+            return;
+        }
         let ok = status.as_ref().map(|s| s.success()).unwrap_or(false);
         if ok {
             return;
@@ -574,7 +584,9 @@ pub fn run(ctx: &Ctx) -> i32 {
     }
     // ---- the binary itself (release, and an unoptimised debug build: deep recursion costs far more stack there)
     // over directories of parser-accepted catalogue programs: exit status 0 and a report, else the culprit file is isolated
-    if ctx.replay.is_none() || ctx.replay.as_ref().map(|r| r.0 == "binary").unwrap_or(false) {
+    if CUT_SHORT.load(std::sync::atomic::Ordering::Relaxed) {
+        acc.cov("binary-workload-skipped-after-cut-short");
+    } else if ctx.replay.is_none() || ctx.replay.as_ref().map(|r| r.0 == "binary").unwrap_or(false) {
         let tdir = std::env::var("VMON_TARGET_DIR").unwrap_or_else(|_| "target".to_string());
         let tdir = if tdir.starts_with('/') { tdir } else { format!("{}/{}", VERIF_DIR, tdir) };
         let bins = [("release", format!("{}/release/solstat", tdir)), ("debug", format!("{}/debug/solstat", tdir))];
